@@ -29,6 +29,13 @@ theorem broadcast_count_eq : broadcast_count = 3 := by
 /-- announcements are 225 ms apart -/
 theorem registerTime_eq : registerTime = 225 := by decide
 
+/-- the public wrappers (`Zeroconf.register_service`, `AsyncZeroconf.async_register_service`) hand `allow_name_change`,
+`cooperating_responders`, `strict` to `Zeroconf.async_register_service` in that order -/
+theorem api_wrappers_pass_arguments :
+    src_sync_register_arg2 = "allow_name_change" ∧ src_sync_register_arg3 = "cooperating_responders" ∧ src_sync_register_arg4 = "strict" ∧
+    src_aio_register_arg2 = "allow_name_change" ∧ src_aio_register_arg3 = "cooperating_responders" ∧ src_aio_register_arg4 = "strict" := by
+  decide
+
 /-- an info's registry key is its lower-cased name, at construction and after every rename (`ServiceInfo.__init__`, the `name` setter) -/
 theorem info_key_follows_name : src_info_ctor_key = "name.lower()" ∧ src_info_name_setter_key = "name.lower()" := by
   decide
